@@ -10,27 +10,36 @@
 unsigned verif_i;
 uint8_t verif_snap;   /* ghost indices: unconstrained, so clauses over them hold for every index */
 
+/* offsets and sizes are arbitrary unless the group fixes them (enumerated constants for the 32-bit bit-sliced backend,
+ * where symbolic offsets through the bit de-interleaving exhaust the solver) */
+#if defined(VERIF_OFFSET)
+#define VERIF_OFFSET_OR_ANY VERIF_OFFSET
+#define VERIF_SIZE_OR_ANY VERIF_SIZE
+#else
+#define VERIF_OFFSET_OR_ANY nondet_unsigned()
+#define VERIF_SIZE_OR_ANY nondet_unsigned()
+#endif
 void h_call(void)
 {
     verif_i = nondet_unsigned();
     verif_snap = nondet_u8();
 #if defined(VERIF_CALL_ascon_add_bytes)
-    ascon_state_t *st; const uint8_t *data; unsigned offset = nondet_unsigned(), size = nondet_unsigned();
+    ascon_state_t *st; const uint8_t *data; unsigned offset = VERIF_OFFSET_OR_ANY, size = VERIF_SIZE_OR_ANY;
     ascon_add_bytes(st, data, offset, size);
 #elif defined(VERIF_CALL_ascon_overwrite_bytes)
-    ascon_state_t *st; const uint8_t *data; unsigned offset = nondet_unsigned(), size = nondet_unsigned();
+    ascon_state_t *st; const uint8_t *data; unsigned offset = VERIF_OFFSET_OR_ANY, size = VERIF_SIZE_OR_ANY;
     ascon_overwrite_bytes(st, data, offset, size);
 #elif defined(VERIF_CALL_ascon_overwrite_with_zeroes)
-    ascon_state_t *st; unsigned offset = nondet_unsigned(), size = nondet_unsigned();
+    ascon_state_t *st; unsigned offset = VERIF_OFFSET_OR_ANY, size = VERIF_SIZE_OR_ANY;
     ascon_overwrite_with_zeroes(st, offset, size);
 #elif defined(VERIF_CALL_ascon_extract_bytes)
-    ascon_state_t *st; uint8_t *data; unsigned offset = nondet_unsigned(), size = nondet_unsigned();
+    ascon_state_t *st; uint8_t *data; unsigned offset = VERIF_OFFSET_OR_ANY, size = VERIF_SIZE_OR_ANY;
     ascon_extract_bytes(st, data, offset, size);
 #elif defined(VERIF_CALL_ascon_extract_and_add_bytes)
-    ascon_state_t *st; const uint8_t *in; uint8_t *out; unsigned offset = nondet_unsigned(), size = nondet_unsigned();
+    ascon_state_t *st; const uint8_t *in; uint8_t *out; unsigned offset = VERIF_OFFSET_OR_ANY, size = VERIF_SIZE_OR_ANY;
     ascon_extract_and_add_bytes(st, in, out, offset, size);
 #elif defined(VERIF_CALL_ascon_extract_and_overwrite_bytes)
-    ascon_state_t *st; const uint8_t *in; uint8_t *out; unsigned offset = nondet_unsigned(), size = nondet_unsigned();
+    ascon_state_t *st; const uint8_t *in; uint8_t *out; unsigned offset = VERIF_OFFSET_OR_ANY, size = VERIF_SIZE_OR_ANY;
     ascon_extract_and_overwrite_bytes(st, in, out, offset, size);
 #elif defined(VERIF_CALL_ascon_init)
     ascon_state_t *st;
